@@ -3,10 +3,12 @@
    validate / serialiser, sub-files in declaration order) and the observation (result kind,
    directory after, whether parsing the saved path gave the configuration back).
 
-   The model is save_fixed (Model/SaveFS.v): check and render everything, then write.  All theorems of
-   Properties/C18.v but the read-back ones hold for EVERY input; the read-back ones are guarded by
-   alias_clash i = false (class 1 = open finding collision-with-main-unnormalised-path).
-   Proofs/C18JudgeProofs.v proves  v_class (judge1 c) = 0 -> v_model (judge1 c) = true -> v_spec (judge1 c) = true. *)
+   The model is save_impl (Model/SaveFS.v): save_fixed (check and render everything, then write) when the target is
+   a local path in any spelling, save_fsspec (the fsspec branch: no overwrite check, file opened before dump) when
+   it is an fsspec URL.  Class 0 = local target with alias_clash = false; class 1 = collision-with-main-unnormalised-
+   path (fixed in /repo, vacuous under judge_fixed); class 2 = fsspec target (open finding fsspec-target-unprotected).
+   Proofs/C18JudgeProofs.v proves  v_class (judge1 c) = 0 -> v_model (judge1 c) = true -> v_spec (judge1 c) = true
+   for judge1, judge1_fixed and judge1_fsfixed (for the last one every case has class 0). *)
 From JV Require Import Lib.Base Model.SaveFS Spec.SaveFSSpec.
 
 Inductive okind := KOk | KPath | KRefuse | KFail.
@@ -25,15 +27,15 @@ Definition kind_of (e : option err) : okind :=
   | Some _ => KFail
   end.
 
-Record case := { c_in : input; c_res : okind; c_fs : fs; c_reparse : bool }.
+Record case := { c_kind : tkind;   (* how save resolves the target: Path(path,"fc") or an fsspec URL (Model/SaveFS.v) *)
+                 c_in : input; c_res : okind; c_fs : fs; c_reparse : bool }.
 
 Definition failed_obs (c : case) : bool := negb (okind_eqb (c_res c) KOk).
 
-(* the model reproduces the observation: same kind of result, same directory afterwards, and (for a
+(* the model result r reproduces the observation: same kind of result, same directory afterwards, and (for a
    successful save of a valid configuration) the same answer to "does it parse back" *)
-Definition model_agrees (c : case) : bool :=
+Definition model_agrees_of (r : fs * option err) (c : case) : bool :=
   let i := c_in c in
-  let r := save_fixed i in
   okind_eqb (kind_of (snd r)) (c_res c)
   && fs_same (fst r) (c_fs c)
   && (if failed_obs c || negb (i_valid i) then true
@@ -48,11 +50,17 @@ Definition spec_holds (c : case) : bool :=
 (* A finding class only explains an observation that the faithful model reproduces: a case outside
    the guard on which the implementation does something ELSE than the modelled defect gets class 9,
    which is not a listed finding (so a spec failure there is reported, not absorbed). *)
-Definition judge1 (c : case) : verdict :=
-  let k := classify (c_in c) in
-  {| v_model := model_agrees c;
-     v_class := if N.eqb k 0 || model_agrees c then k else 9%N;
+Definition judge1_with (sv : tkind -> input -> fs * option err) (cls : tkind -> input -> N) (c : case) : verdict :=
+  let k := cls (c_kind c) (c_in c) in
+  let m := model_agrees_of (sv (c_kind c) (c_in c)) c in
+  {| v_model := m;
+     v_class := if N.eqb k 0 || m then k else 9%N;
      v_spec := spec_holds c |}.
+
+(* the current tree: save_fixed for local targets, save_fsspec for fsspec URLs (class 2 = open finding
+   fsspec-target-unprotected; class 1 = collision-with-main-unnormalised-path, vacuous since 7d8f87e) *)
+Definition model_agrees (c : case) : bool := model_agrees_of (save_impl (c_kind c) (c_in c)) c.
+Definition judge1 (c : case) : verdict := judge1_with save_impl classify_call c.
 
 Definition judge (cs : list case) := judge_all judge1 cs.
 
@@ -61,8 +69,16 @@ Definition judge (cs : list case) := judge_all judge1 cs.
    resolving links, the form of the target path no longer matters (i_alias := false), the guard is
    trivially true and no finding class is left. *)
 Definition unalias (c : case) : case :=
-  {| c_in := no_alias (c_in c); c_res := c_res c; c_fs := c_fs c; c_reparse := c_reparse c |}.
+  {| c_kind := c_kind c; c_in := no_alias (c_in c); c_res := c_res c; c_fs := c_fs c; c_reparse := c_reparse c |}.
 
 Definition judge1_fixed (c : case) : verdict := judge1 (unalias c).
 
 Definition judge_fixed (cs : list case) := judge_all judge1_fixed cs.
+
+(* ---- after fixes/C18-fsspec-target.patch has been applied as well -------------------------------------
+   Set JUDGE = "judge_fsfixed" and FINDING_CLASSES = {}: the fsspec branch then checks, renders and only
+   then writes (save_fsspec_fixed); no finding class is left, every case is inside the proved guard. *)
+Definition judge1_fsfixed (c : case) : verdict :=
+  judge1_with save_impl_fixed (fun _ i => classify i) (unalias c).
+
+Definition judge_fsfixed (cs : list case) := judge_all judge1_fsfixed cs.
